@@ -279,6 +279,18 @@ def run_c16(prop, tier, replay):
                 break
             hist.append(x)
         verdict.add(sig, {"line": ln, "why": rj.get("why"), "offending": rj.get("spec"), "explanation": det, "history": hist})
+    # Deterministic reproduction of the directory state that a SIGKILL between the creation and the sizing of one of
+    # Badger's log files leaves behind (seen with real kills 3-20 ms into Open, about once in 100-200 cycles; the timed
+    # kills above hit it only by chance): the store must reopen on it at the first attempt (ReopenAlways).
+    probe = stats.get("probe_zero_length_log_file") or {}
+    for name, res in sorted(probe.items()):
+        if isinstance(res, dict) and res.get("first_open_error"):
+            kind = "memtable-wal" if name.endswith(".mem") else "value-log"
+            verdict.add("Reopen/probe/failed:zero-length-%s" % kind,
+                        {"file": name, "first_open_error": res["first_open_error"], "second_open_error": res.get("second_open_error"),
+                         "how": "on a cleanly closed store directory create an empty %s and call db.Open" % name})
+    if not replay and not any(isinstance(v, dict) for v in probe.values()):
+        raise vlib.Broken("zero-length log file probe did not run: %r" % probe)
     rc = verdict.finish()
 
     classes = set()
